@@ -385,9 +385,10 @@ func checkTemplatePositions(res *hx.Result, def []byte, fail func(class, detail 
 	}
 	ma, _ := ta.(map[string]any)
 	mb, _ := tb.(map[string]any)
-	type pair struct{ path, before, after string }
+	type pair struct{ path, before, after, item, prop string }
 	var pairs []pair
 	shape := true
+	curItem, curProp := "", ""
 	var walk func(path string, x, y any)
 	walk = func(path string, x, y any) {
 		switch xt := x.(type) {
@@ -398,7 +399,7 @@ func checkTemplatePositions(res *hx.Result, def []byte, fail func(class, detail 
 				return
 			}
 			if strings.Contains(xt, "@") || strings.Contains(ys, "@") {
-				pairs = append(pairs, pair{path, xt, ys})
+				pairs = append(pairs, pair{path, xt, ys, curItem, curProp})
 			}
 		case []any:
 			yt, ok := y.([]any)
@@ -435,7 +436,31 @@ func checkTemplatePositions(res *hx.Result, def []byte, fail func(class, detail 
 		}
 	}
 	walk("nodes", ma["nodes"], mb["nodes"])
-	walk("localization", ma["localization"], mb["localization"])
+	// localization: lang -> item uuid -> property -> texts
+	la, _ := ma["localization"].(map[string]any)
+	lb, _ := mb["localization"].(map[string]any)
+	if len(la) != len(lb) {
+		shape = false
+	}
+	for _, lang := range sortedKeys(la) {
+		ia, _ := la[lang].(map[string]any)
+		ib, _ := lb[lang].(map[string]any)
+		if len(ia) != len(ib) {
+			shape = false
+		}
+		for _, item := range sortedKeys(ia) {
+			pa, _ := ia[item].(map[string]any)
+			pb, _ := ib[item].(map[string]any)
+			if len(pa) != len(pb) {
+				shape = false
+			}
+			for _, prop := range sortedKeys(pa) {
+				curItem, curProp = item, prop
+				walk("localization."+lang+".<uuid>."+prop, pa[prop], pb[prop])
+			}
+		}
+	}
+	curItem, curProp = "", ""
 	res.OracleChecks++
 	if !shape {
 		fail("13.3-structure-changed", "the step to 13.3 changed more than template texts in nodes/localization")
@@ -460,12 +485,59 @@ func checkTemplatePositions(res *hx.Result, def []byte, fail func(class, detail 
 				if strings.HasPrefix(p.path, "localization") {
 					where = "localization"
 				}
-				fail("13.3-template-meaning-changed:"+where, fmt.Sprintf("at %s: %q evaluates to %q (error=%v) before 13.3, %q evaluates to %q (error=%v) after; webhook=%s",
+				class := "13.3-template-meaning-changed:" + where
+				if prop, ok := translationWithoutBase(ma, p.item, p.prop); ok {
+					// RewriteTemplates reaches translations only through the base member they translate
+					class = "13.3-translation-without-base-not-rewritten:" + prop
+				}
+				fail(class, fmt.Sprintf("at %s: %q evaluates to %q (error=%v) before 13.3, %q evaluates to %q (error=%v) after; webhook=%s",
 					p.path, p.before, o1, x1, p.after, o2, x2, pl))
 				return
 			}
 		}
 	}
+}
+
+func sortedKeys(m map[string]any) []string {
+	keys := make([]string, 0, len(m))
+	for k := range m {
+		keys = append(keys, k)
+	}
+	sort.Strings(keys)
+	return keys
+}
+
+// translationWithoutBase: the object with uuid `item` somewhere under nodes has no member `prop` (so the translation
+// translates nothing the definition has)
+func translationWithoutBase(def map[string]any, item, prop string) (string, bool) {
+	if item == "" {
+		return "", false
+	}
+	var found map[string]any
+	var walk func(v any)
+	walk = func(v any) {
+		switch t := v.(type) {
+		case map[string]any:
+			if str(t["uuid"]) == item && found == nil {
+				found = t
+			}
+			for _, k := range sortedKeys(t) {
+				walk(t[k])
+			}
+		case []any:
+			for _, x := range t {
+				walk(x)
+			}
+		}
+	}
+	walk(def["nodes"])
+	if found == nil {
+		return "", false
+	}
+	if _, has := found[prop]; has {
+		return "", false
+	}
+	return prop, true
 }
 
 // ---- legacy -----------------------------------------------------------------------------------------------------
